@@ -355,7 +355,9 @@ def run_C03(tier, rng, stats):
                      'every keyword of the union vocabulary in every evaluator (alone, followed by each character class, near misses, wrong arity), '
                      'random well-formed expressions and near-miss mutants; outcomes, token streams and ASTs compared' % (4 if tier == 'quick' else 5))
     cases, outs, model = run_streams(cs, stats, profiles=('debug',))
-    return std_judge('C03', cases, outs, model)
+    res = std_judge('C03', cases, outs, model)
+    kernel_crosscheck(res, stats, cases, model, tier, rng)
+    return res
 
 EXACT_LITS = {'f64': ['0', '1', '2', '3', '4', '5', '0.5', '1.5', '8', '0.25'], 'i64': ['0', '1', '2', '3', '4', '5', '7', '8'],
               'decimal': ['0', '1', '2', '3', '4', '0.5', '1.5', '0.25'], 'complex': ['0', '1', '2', '3', '0.5', 'i', '2i'],
@@ -399,7 +401,9 @@ def run_C04(tier, rng, stats):
                      'all token sequences <= %d as ASTs, random operator trees of depth <= 6 over exactly representable operands'
                      % (' and triple' if tier == 'thorough' else '', 4 if tier == 'quick' else 5))
     cases, outs, model = run_streams(cs, stats, profiles=('debug',))
-    return std_judge('C04', cases, outs, model)
+    res = std_judge('C04', cases, outs, model)
+    kernel_crosscheck(res, stats, cases, model, tier, rng)
+    return res
 
 C05_F1 = ['abs', 'floor', 'ceil', 'trunc', 'truncate', 'round', 'sqrt']
 def run_C05(tier, rng, stats):
@@ -458,6 +462,7 @@ def run_C06(tier, rng, stats):
             res['violations'].insert(0, {'kind': 'debug-release-differ', 'cases': [list(c)], 'observed': a + ' | ' + b,
                                          'why': 'debug and release builds disagree'})
     l0_i64(tier, rng, stats, res)
+    kernel_crosscheck(res, stats, cases, model, tier, rng)
     return res
 
 def run_C09(tier, rng, stats):
@@ -2005,3 +2010,51 @@ def l0_dec(tier, rng, stats, res):
     for op in ['dadd', 'dsub', 'dmul', 'dcmp']:
         reqs += [(op, a, b) for a in pool for b in pool]
     l0_level(res, stats, 'L0 decimal exact paths (Base/Dec.v vs rust_decimal)', reqs)
+
+# ============================================================================ extraction cross-checked by the kernel
+def kernel_crosscheck(res, stats, cases, model, tier, rng):
+    """A sample of the oracle-free cases is evaluated INSIDE Coq (Eval vm_compute of Driver.run_line with a dummy
+       oracle) and compared with what the extracted OCaml runner printed for the same line. Oracle-free: token and
+       AST dumps of i64 / f64 / number / complex, and eval_i64 on inputs without letters (no libm call)."""
+    import subprocess, re as _r
+    cand = []
+    for c, m in zip(cases, model):
+        e = dec_expr(c[3])
+        if c[0] in ('i64', 'f64', 'number', 'complex') and c[1] in ('tokens', 'ast'):
+            cand.append((c, m))
+        elif c[0] == 'i64' and c[1] == 'eval' and not any(ch.isalpha() for ch in e):
+            cand.append((c, m))
+    k = 64 if tier == 'quick' else 512
+    if len(cand) > k:
+        idx = sorted(set(rng.below(len(cand)) for _ in range(k * 2)))[:k]
+        cand = [cand[i] for i in idx]
+    if not cand:
+        res['levels']['extraction-vs-kernel (vm_compute)'] = (0, 0)
+        return
+    d = os.path.join(vlib.ROOT, 'build', 'kernel')
+    os.makedirs(d, exist_ok=True)
+    src = ['From Coq Require Import String List.', 'From SC Require Import Extract.Driver.', 'Open Scope string_scope.',
+           'Definition ask0 (s : string) : string := "".']
+    for c, _ in cand:
+        line = '\t'.join(c)
+        assert '"' not in line
+        src.append('Eval vm_compute in (run_line ask0 "%s").' % line)
+    open(os.path.join(d, 'cases.v'), 'w').write('\n'.join(src) + '\n')
+    p = subprocess.run(['timeout', '600', 'coqc', '-noglob', '-Q', vlib.COQ, 'SC', os.path.join(d, 'cases.v')],
+                       stdout=subprocess.PIPE, stderr=subprocess.STDOUT, text=True)
+    got = _r.findall(r'= "((?:[^"]|"")*)"%?(?:string)?\s*:\s*string', p.stdout.replace('\n', ' '))
+    got = [_r.sub(r'\s+', ' ', g) for g in got]
+    n = nd = 0
+    if p.returncode != 0 or len(got) != len(cand):
+        res['violations'].append({'kind': 'kernel-crosscheck-failed', 'cases': [list(cand[0][0])], 'observed': p.stdout[-400:],
+                                  'why': 'coqc could not evaluate the sample (%d results for %d cases)' % (len(got), len(cand))})
+        res['levels']['extraction-vs-kernel (vm_compute)'] = (len(cand), len(cand))
+        return
+    for (c, m), g in zip(cand, got):
+        n += 1
+        if _r.sub(r'\s+', ' ', m) != g:
+            nd += 1
+            res['violations'].append({'kind': 'extraction-mismatch', 'cases': [list(c)], 'observed': m, 'expected': g,
+                                      'why': 'the extracted OCaml model prints %r, the Coq kernel (vm_compute) computes %r' % (m, g)})
+    res['levels']['extraction-vs-kernel (vm_compute)'] = (n, nd)
+    stats['evaluations'] = stats.get('evaluations', 0) + n
